@@ -94,4 +94,32 @@ def durMinutes (n : Int) : Int := (n.natAbs % nsPerHour) / nsPerMinute
 def durSeconds (n : Int) : Int := (n.natAbs % nsPerMinute) / nsPerSecond
 def durNanos (n : Int) : Int := n.natAbs % nsPerSecond
 
+/-! ## Calendar built-ins (`day of year`, `week of year`) and Zeller's congruence -/
+
+/-- Ordinal day of the year, 1 … 366 (FEEL `day of year`). -/
+def dayOfYear (y m d : Int) : Int := daysFromCivil y m d - daysFromCivil y 1 1 + 1
+
+/-- Day number of the Thursday of the ISO week (Monday … Sunday) that contains day `z`. -/
+def isoThursday (z : Int) : Int := z - (weekday z - 1) + 3
+
+/-- ISO-8601 week-numbering year and week of day number `z`: weeks run Monday … Sunday and belong
+to the calendar year that holds their Thursday; the week number is the ordinal of that Thursday
+among the Thursdays of its year. -/
+def isoWeekOfDay (z : Int) : Int × Int :=
+  let th := isoThursday z
+  let ty := (civilFromDays th).1
+  (ty, (th - daysFromCivil ty 1 1) / 7 + 1)
+
+/-- FEEL `week of year`. -/
+def isoWeek (y m d : Int) : Int := (isoWeekOfDay (daysFromCivil y m d)).2
+
+/-- Zeller's congruence for the Gregorian calendar (0 = Saturday, 1 = Sunday, 2 = Monday, …):
+January and February count as months 13 and 14 of the year before. -/
+def zeller (y m d : Int) : Int :=
+  let m' := if m < 3 then m + 12 else m
+  let y' := if m < 3 then y - 1 else y
+  let k := y' % 100
+  let j := y' / 100
+  (d + (13 * (m' + 1)) / 5 + k + k / 4 + j / 4 + 5 * j) % 7
+
 end Dmn.Cal
